@@ -396,7 +396,28 @@ pub fn regs(rng: &mut Rng) -> [u32; 8] {
     for x in r.iter_mut() {
         *x = rng.u32();
     }
+    // coincidences between independent values: equal registers, equal halves, small constants
+    if rng.chance(1, 6) {
+        let (i, j) = (rng.below(8) as usize, rng.below(8) as usize);
+        r[i] = r[j];
+    }
+    if rng.chance(1, 10) {
+        let i = rng.below(8) as usize;
+        r[i] = (r[i] & 0xffff) * 0x10001;
+    }
+    if rng.chance(1, 10) {
+        let i = rng.below(8) as usize;
+        r[i] = *rng.pick(&[0u32, 1, 0xffff_ffff, 0x8000_0000, 0x0000_ffff, 0xffff_0000, 0x00ff_00ff]);
+    }
     r
+}
+
+/// bus-controller settings as a rarely varied configuration dimension of the value-level checks
+pub fn maybe_bus(rng: &mut Rng, c: &mut Case) {
+    if rng.chance(1, 4) {
+        let b = crate::refmodel::cost::BusRegs { abwcr: rng.u8(), astcr: rng.u8(), wcrh: rng.u8(), wcrl: rng.u8(), drcra: rng.u8() };
+        c.bus(&b);
+    }
 }
 
 #[derive(Clone, Copy, PartialEq, Eq, Debug, Hash)]
@@ -448,6 +469,10 @@ pub fn any_region(rng: &mut Rng) -> Region {
 
 /// Code position (even) with room for `len` bytes plus slack, in RAM or DRAM.
 pub fn code_addr(rng: &mut Rng, dram: bool) -> u32 {
+    // occasionally the code sits in the vector area (a mapped region like any other)
+    if rng.chance(1, 24) {
+        return (rng.below(0x70) as u32) * 2;
+    }
     let (lo, hi) = if dram { (DRAM_LO, DRAM_HI) } else { (RAM_LO, RAM_HI) };
     let a = match rng.below(5) {
         0 => lo + rng.below(16) as u32,
@@ -800,6 +825,7 @@ pub fn build_case(pat: &str, rng: &mut Rng, o: &BuildOpts) -> Option<Built> {
             }
         }
     }
+    maybe_bus(rng, &mut c);
     Some(Built { case: c, insn, ea, region, sp_region, data: dval })
 }
 
